@@ -591,7 +591,7 @@ func (P) Exec(c *harness.Case) *harness.Outcome {
 			}
 			nan := false
 			for _, r := range last.list {
-				if !r.Nil && r.M == rs.Flow && r.Var == 12 {
+				if r.NotANumber() {
 					nan = true // a list with a NaN in it is not even equal to itself
 				}
 			}
